@@ -43,7 +43,8 @@ NewReq(r, mode) ==
    st |-> "wait",        \* "wait" no response yet | "live" | "over" (a cause for the end has occurred)
    v1 |-> -1, t1 |-> 0,  \* cb: the last one handed over; lossy: the last one the RFC rule accepts
    exp |-> NoExp,        \* cb: what has to happen to the arrival being processed
-   pend |-> << >>,       \* lossy: accepted values not yet handed over (-1: the final response)
+   acc |-> << >>,        \* lossy: the values the RFC rule accepts, in order (-1: the final response)
+   cur |-> {0},          \* lossy: positions in acc the last item handed over may have (equal values are ambiguous)
    must |-> "",          \* how the observation has to end: "notobs" | "final" | "net"
    ends |-> 0, kind |-> "", fin |-> FALSE]
 
@@ -102,11 +103,11 @@ ObsRx(o, e) ==
                         THEN [o0 EXCEPT !.rq[q].exp = [kind |-> IF fresh THEN "deliver" ELSE "nodeliver",
                                                         val |-> e.obs, t |-> e.t, got |-> FALSE]]
                         ELSE IF fresh
-                               THEN [o0 EXCEPT !.rq[q].pend = Append(@, e.obs), !.rq[q].v1 = e.obs, !.rq[q].t1 = e.t]
+                               THEN [o0 EXCEPT !.rq[q].acc = Append(@, e.obs), !.rq[q].v1 = e.obs, !.rq[q].t1 = e.t]
                                ELSE o0
               ELSE LET o1 == IF s.mode = "cb"
                                THEN [o0 EXCEPT !.rq[q].exp = [kind |-> "deliver", val |-> -1, t |-> e.t, got |-> FALSE]]
-                               ELSE [o0 EXCEPT !.rq[q].pend = Append(@, -1)]
+                               ELSE [o0 EXCEPT !.rq[q].acc = Append(@, -1)]
                    IN Cause(o1, q, "final")
        [] OTHER ->   \* the observation is over: the token must be unknown again
             [o0 EXCEPT !.win = [NoWin EXCEPT !.kind = IF e.ty = "CON" THEN "rstit"
@@ -130,9 +131,6 @@ ObsRxEnd(o, e) ==
                           IF @[q].exp.kind = "nodeliver" \/ (@[q].exp.kind = "deliver" /\ @[q].exp.got)
                             THEN [@[q] EXCEPT !.exp = NoExp] ELSE @[q]]]
 
-RECURSIVE FirstAt(_, _, _)
-FirstAt(seq, v, i) == IF i > Len(seq) THEN 0 ELSE IF seq[i] = v THEN i ELSE FirstAt(seq, v, i + 1)
-
 ObsNotif(o, e) ==
   IF ~Has(o.rq, e.q) THEN Flag(o, "C07_DeliverIffFresh/unknown")
   ELSE
@@ -148,9 +146,10 @@ ObsNotif(o, e) ==
             IN IF wanted
                  THEN [o1 EXCEPT !.rq[q].exp.got = TRUE, !.rq[q].fin = (@ \/ e.obs < 0)]
                  ELSE Flag(o1, "C07_DeliverIffFresh/stale")
-       ELSE LET i == FirstAt(s.pend, e.obs, 1)
-            IN IF i = 0 THEN Flag(o, "C07_DeliverIffFresh/order")
-               ELSE [o EXCEPT !.rq[q].pend = SubSeq(@, i + 1, Len(@)), !.rq[q].fin = (@ \/ e.obs < 0)]
+       ELSE \* a later element of the accepted sequence (every position it may be is kept)
+            LET nc == {j \in 1..Len(s.acc) : s.acc[j] = e.obs /\ \E i \in s.cur : i < j}
+            IN IF nc = {} THEN Flag(o, "C07_DeliverIffFresh/order")
+               ELSE [o EXCEPT !.rq[q].cur = nc, !.rq[q].fin = (@ \/ e.obs < 0)]
 
 ObsObsEnd(o, e) ==
   IF ~Has(o.rq, e.q) THEN Flag(o, "C07_EndsOnce")
@@ -184,7 +183,7 @@ EndAll(o, qs) ==
            o1 == FlagIf(o0, s.must # "" /\ s.ends = 0, "C07_EndsOnce")          \* never signalled
            o2 == FlagIf(o1, s.must = "" /\ s.ends > 0, "C07_EndKind")           \* ended without any cause
            \* still live behind a latest-value queue: the freshest accepted one must have come out
-           o3 == FlagIf(o2, s.mode = "lossy" /\ s.must = "" /\ s.ends = 0 /\ s.pend # << >>,
+           o3 == FlagIf(o2, s.mode = "lossy" /\ s.must = "" /\ s.ends = 0 /\ Len(s.acc) \notin s.cur,
                         "C07_DeliverIffFresh/latest-lost")
        IN EndAll(o3, qs \ {q})
 
